@@ -251,10 +251,12 @@ pub fn cache_replay(args: &Args, s: &mut Summary) {
         s.nontrivial_key(&c["ops"].to_string());
         // one concretisation per case in turn (the enumeration contains every operation sequence many times over
         // up to renaming of pool entries), all three for the first cases
-        for tb in (if n <= 3000 { 0..3usize } else { (n % 3)..(n % 3 + 1) }) {
-        let mode = MODES[(n / 3 + tb) % 4];
-        let pool = |i: i64| pool(tb, i);
-        let len_choice = |l: i64| len_choice(tb, l);
+        // a fourth concretisation is drawn with the seed: random control-point lists of every segment type
+        for tb in (if n <= 3000 { 0..4usize } else { (n % 4)..(n % 4 + 1) }) {
+        let mode = MODES[(n / 4 + tb) % 4];
+        let seed = args.seed;
+        let pool = |i: i64| if tb == 3 { if i == 0 { vec![] } else { gen_cps(&mut Rng::new(seed.wrapping_mul(131).wrapping_add(i as u64))) } } else { pool(tb, i) };
+        let len_choice = |l: i64| if tb == 3 { match l { 0 => None, 1 => Some(40.0 + (seed % 97) as f64 * 1.5), _ => Some(0.5 + (seed % 13) as f64) } } else { len_choice(tb, l) };
         let label = format!("cache replay table {tb} {}", c["ops"]);
         let r = guarded(&label, || {
             let mut bufs = CurveBuffers::default();
